@@ -5,6 +5,9 @@ regressor (a position-sensitive polynomial hash, mirrored in harness/corr/C05.py
   C05 swt <sci> <wl> <fh> <y> <X>
   C05 run <strategy> <sci> <wl> <fhFit> <fhPred> <t0> <y> <X> <upd> <u0> <uy> <uX> <Xp>
      upd = no | upd | refit (update, batch starting at label u0) | up | uprefit (update_predict)
+  C05 hist <via> <step> <strategy> <sci> <wl> <fhFit> <t0> <y> <X> <failAfter> <op> <op> ...
+     via = make | cls | rf | rrf;  failAfter = none | k (the regressor raises on its (k+1)-th predict call)
+     op = U@<u0>@<uy>@<uX>@<T|F> | W@<u0>@<uy>@<Xup>@<T|F> | P@<fh>@<Xp>     (operations continue after a failure)
 
 values: integers or half-integers ("12", "-3.5") | nan | inf | -inf;  lists "a,b,c" ("-" = empty);  row lists "a,b;c,d";  "none".
 -/
@@ -85,8 +88,34 @@ def showCall (sci : Scitype) : Call Val → String
   | .predict k x out => s!"P{k}:{showInsts sci [x]}>{showVals out}"
 def showErr : Err → String
   | .value => "E:value" | .type => "E:type" | .notimpl => "E:notimpl"
-  | .assert => "E:assert" | .index => "E:index" | .attr => "E:attr"
+  | .assert => "E:assert" | .index => "E:index" | .attr => "E:attr" | .other => "E:other:RuntimeError"
 def showStage : Stage → String | .fit => "fit" | .update => "update" | .predict => "predict"
+
+def parseVia? (s : String) : Option Via :=
+  match s with
+  | "make" => some .make | "cls" => some .cls
+  | "rf" => some .reducedForecaster | "rrf" => some .reducedRegressionForecaster | _ => none
+
+def parseOp? (s : String) : Option (Op Val) :=
+  match s.splitOn "@" with
+  | ["U", u0, uy, uX, r] => do
+      let u0 ← parseInt? u0; let uy ← parseVals? uy; let uX ← parseRows? uX; let r ← parseBool? r
+      pure (.update u0 uy uX r)
+  | ["W", u0, uy, xup, r] => do
+      let u0 ← parseInt? u0; let uy ← parseVals? uy; let xup ← parseRows? xup; let r ← parseBool? r
+      pure (.updPredict u0 uy xup r)
+  | ["P", fh, xp] => do
+      let fh ← parseFh? fh; let xp ← parseRows? xp
+      pure (.predict fh xp)
+  | _ => none
+
+def parseBudget? (s : String) : Option Budget :=
+  if s == "none" then some none else (parseNat? s).map some
+
+def showOpRes : OpRes Val → String
+  | .ok => "ok"
+  | .err e => showErr e
+  | .forecast out => if out.isEmpty then "-" else ",".intercalate (out.map fun (p : Int × Val) => s!"{p.1}:{showVal p.2}")
 
 def handle (toks : List String) : String :=
   match toks with
@@ -121,6 +150,17 @@ def handle (toks : List String) : String :=
           | .ok out => if out.isEmpty then "-" else ",".intercalate (out.map fun (p : Int × Val) => s!"{p.1}:{showVal p.2}")
         s!"calls={cs} res={rs}"
     | _, _, _, _, _, _, _, _, _, _, _, _ => "bad-op"
+  | "hist" :: via :: step :: s :: sci :: wl :: fhFit :: t0 :: y :: X :: fail :: ops =>
+    match parseVia? via, parseInt? step, parseStrategy? s, parseSci? sci, parseWl? wl, parseFh? fhFit, parseInt? t0,
+          parseVals? y, parseRows? X, parseBudget? fail, ops.mapM parseOp? with
+    | some via, some step, some s, some sci, some wl, some fhFit, some t0, some y, some X, some b, some ops =>
+      let (calls, res) := runHist vals hashReg via step s sci wl t0 y X fhFit b ops
+      let cs := if calls.isEmpty then "-" else "/".intercalate (calls.map (showCall sci))
+      let rs := match res with
+        | .error e => s!"{showErr e}@fit"
+        | .ok rs => if rs.isEmpty then "-" else "|".intercalate (rs.map showOpRes)
+      s!"calls={cs} res={rs}"
+    | _, _, _, _, _, _, _, _, _, _, _ => "bad-op"
   | _ => "bad-op"
 
 end SkVerif.Drv.C05
